@@ -19,7 +19,9 @@ poll faked -> _update_state_num: both copies), plain (regular type-0x06 advertis
 (new BleController + pairings over the same characteristic cache).  Model: ops OPopulate / OUpdate /
 OPlain / ORestart.
 Observable after every advertisement: listener calls per pairing (aid, iid, value), the
-stored state number (description.state_num) of every pairing, escaped exception class.
+stored state number (description.state_num) of every pairing, escaped exception class (none is
+allowed since fix 242be4e), and whether the step ended in the disconnected-events poll fallback
+(model: falls_back).
 The oracle is direct: anything accepted that is not genuine+fresh for that pairing, or a
 genuine fresh one rejected / delivered wrongly, is a violation with the history as replay.
 """
@@ -37,9 +39,14 @@ from ref import bcast_ref as R
 
 # ------------------------------------------------------------------ fixed vocabulary
 IDS = {"A": "aabbccddeeff", "B": "010203040506", "C": "0a0b0c0d0e0f", "D": "d0d1d2d3d4d5",
-       "E": "e0e1e2e3e4e5", "X": "777777777777"}
-KEYS = {k: hashlib.sha256(b"c18-key-" + k.encode()).digest() for k in "ABDZ"}
-KEYNUM = {"A": 1, "B": 2, "D": 4, "Z": 9}
+       "E": "e0e1e2e3e4e5", "F": "f0f1f2f3f4f5", "X": "777777777777"}
+KEYS = {k: hashlib.sha256(b"c18-key-" + k.encode()).digest() for k in "ABDFZ"}
+KEYNUM = {"A": 1, "B": 2, "D": 4, "F": 6, "Z": 9, "R1": 11, "R2": 12, "R3": 13}
+# keys (re)generated inside an authenticated session: HKDF of the session secret (reference implementation)
+LTPK = hashlib.sha256(b"c18-controller-ltpk").digest()
+SECRETS = {k: hashlib.sha256(b"c18-session-secret-" + k.encode()).digest() for k in ("R1", "R2", "R3")}
+KEYS.update({k: R.broadcast_key(v, LTPK) for k, v in SECRETS.items()})
+SIG_IID = 31
 DBS = {
     "1": [(9, "bool"), (10, "uint8"), (11, "uint16"), (12, "uint32"), (13, "uint64"), (14, "int"),
           (15, "float"), (16, "string"), (17, "tlv8"), (18, "data"), (19, "array"), (20, "dict")],
@@ -51,8 +58,18 @@ ENC = 0x11
 
 
 def accessories_json(db):
+    if db == "noaid1":
+        # a database without accessory 1
+        return [dict(aid=2, services=[dict(iid=1, type="0000003E-0000-1000-8000-0026BB765291", characteristics=[
+            dict(iid=2, type="00000023-0000-1000-8000-0026BB765291", perms=["pr"], format="string")])])]
+    if db == "1":
+        base = accessories_json("1nosig")
+        # protocol information service with the service-signature characteristic (needed for key generation)
+        base[0]["services"].append(dict(iid=30, type="000000A2-0000-1000-8000-0026BB765291", characteristics=[
+            dict(iid=SIG_IID, type="000000A5-0000-1000-8000-0026BB765291", perms=["pr"], format="data")]))
+        return base
     chars = [dict(iid=iid, type="00000025-0000-1000-8000-0026BB765291", perms=["pr", "ev"], format=f)
-             for iid, f in DBS[db]]
+             for iid, f in DBS["1" if db == "1nosig" else db]]
     return [dict(aid=1, services=[
         dict(iid=1, type="0000003E-0000-1000-8000-0026BB765291", characteristics=[
             dict(iid=2, type="00000023-0000-1000-8000-0026BB765291", perms=["pr"], format="string")]),
@@ -66,19 +83,24 @@ def mk_world(sa, sb):
             dict(name="B", id=IDS["B"], key="B", sn=sb, db="2", cache=True),
             dict(name="C", id=IDS["C"], key=None, sn=5, db="1", cache=True),
             dict(name="D", id=IDS["D"], key="D", sn=None, db="1", cache=True),
-            dict(name="E", id=IDS["E"], key=None, sn=None, db=None, cache=False)]
+            dict(name="E", id=IDS["E"], key=None, sn=None, db=None, cache=False),
+            dict(name="F", id=IDS["F"], key="F", sn=40, db="noaid1", cache=True)]
+
+
+def db_chars(db):
+    """(iid, format) of accessory 1 in database order"""
+    if not db or db == "noaid1":
+        return []
+    return [(2, "string")] + DBS[db] + ([(SIG_IID, "data")] if db == "1" else [])
 
 
 def pdb(p):
-    d = dict(DBS[p["db"]]) if p["db"] else {}
-    if p["db"]:
-        d[2] = "string"
-    return d
+    return dict(db_chars(p["db"]))
 
 
 # ------------------------------------------------------------------ events
-PAIRING_NAMES = ("A", "B", "C", "D", "E")
-OPS = ("plain", "populate", "update", "restart")     # writers of the state number other than an accepted broadcast
+PAIRING_NAMES = ("A", "B", "C", "D", "E", "F")
+OPS = ("plain", "populate", "update", "restart", "setkey")     # writers of the state number other than an accepted broadcast
 UNKNOWN_ADDR = "AA:BB:CC:00:00:01"
 
 
@@ -107,7 +129,7 @@ def ev_raw(to, payload, label, **mods):
 
 def realise(ev):
     """-> (apple manufacturer data bytes or None, sealed-intact?)"""
-    if ev["k"] in ("noapple", "populate", "update", "restart"):
+    if ev["k"] in ("noapple", "populate", "update", "restart", "setkey"):
         return None, False
     if ev["k"] == "plain":
         # type 0x06 | stl | sf | id(6) | acid(2) | gsn(2) | cn | cv | setup hash(4)
@@ -145,7 +167,7 @@ def target(world, data):
     return None
 
 
-def symbolic(world, ev, plain_sns):
+def symbolic(world, ev, plain_sns, curkeys=None):
     """the model's view of the advertisement: 'A:<hdr>:<body>' (or R:.. for plain)"""
     if ev["k"] == "plain":
         return "R:%s:%d" % (ev["to"], ev["sn"] & 0xFFFF)
@@ -155,6 +177,8 @@ def symbolic(world, ev, plain_sns):
         return "U:%s:%d" % (ev["to"], ev["sn"])
     if ev["k"] == "restart":
         return "X"
+    if ev["k"] == "setkey":
+        return "K:%s:%d" % (ev["to"], KEYNUM[ev["key"]])
     data, intact = realise(ev)
     if data is None:
         return "A:-:E"
@@ -172,7 +196,8 @@ def symbolic(world, ev, plain_sns):
         ats = set()
         if t is not None and world[t]["key"]:
             for base in [world[t]["sn"] or 0] + plain_sns.get(world[t]["id"], []):
-                ats.update(R.short_opens_at(KEYS[world[t]["key"]], bytes(hdr[2:8]), bytes(payload), max(0, base - 5), base + 1400))
+                ats.update(R.short_opens_at(KEYS[(curkeys or {}).get(world[t]["id"]) or world[t]["key"]], bytes(hdr[2:8]), bytes(payload),
+                                            max(0, base - 5), base + 1400))
         body = "H." + (",".join(map(str, sorted(ats))) if ats else "-")
     return "A:%s:%s" % (R.hexs(hdr), body)
 
@@ -180,16 +205,21 @@ def symbolic(world, ev, plain_sns):
 def model_line(world, events):
     toks = ["hist"]
     for p in world:
-        chars = ",".join("%d.%s" % (i, MODEL_FMT.get(f, "other")) for i, f in ([(2, "string")] + DBS[p["db"]])) if p["db"] else "-"
+        chars = ",".join("%d.%s" % (i, MODEL_FMT.get(f, "other")) for i, f in db_chars(p["db"])) or "-"
         has_desc = p["cache"] and p["sn"]
-        toks.append("P:%s:%s:%s:%s:%s" % (p["id"], KEYNUM[p["key"]] if p["key"] else "-",
-                                          p["sn"] if has_desc else "-",
-                                          p["sn"] if (p["cache"] and p["sn"] is not None) else "-", chars))
+        toks.append("P:%s:%s:%s:%s:%s:%d" % (p["id"], KEYNUM[p["key"]] if p["key"] else "-",
+                                             p["sn"] if has_desc else "-",
+                                             p["sn"] if (p["cache"] and p["sn"] is not None) else "-", chars,
+                                             1 if p["db"] == "1" else 0))
     plain_sns = {}
     for e in events:
-        if e["k"] in OPS and e["k"] != "restart":
+        if e["k"] in ("plain", "populate", "update"):
             plain_sns.setdefault(e["to"], []).append(e["sn"])
-    toks += [symbolic(world, e, plain_sns) for e in events]
+    curkeys = {}
+    for e in events:
+        toks.append(symbolic(world, e, plain_sns, curkeys))
+        if e["k"] == "setkey" and any(p["id"] == e["to"] and p["db"] == "1" for p in world):
+            curkeys[e["to"]] = e["key"]
     return " ".join(toks)
 
 
@@ -199,8 +229,8 @@ def canon_model(ans, npair):
         return [], []
     out = []
     for tok in ans.split(" "):
-        o, calls, sns, _psns = tok.split("/")
-        exc = o if o.startswith("crash-") else "ok"
+        o, calls, sns, _psns, fb, _keys = tok.split("/")
+        exc = "ok"
         cl = []
         if calls != "-":
             for c in calls.split("+"):
@@ -210,12 +240,12 @@ def canon_model(ans, npair):
                 elif v[0] == "f":
                     v = R.canon_float_bits(int(v[1:]))
                 cl.append("%s.%s.%s.%s" % (pid, aid, iid, v))
-        out.append("%s|%s|%s" % (exc, "+".join(cl) or "-", sns))
+        out.append("%s|%s|%s|%s" % (exc, "+".join(cl) or "-", sns, fb))
     return out, [tok.split("/")[0] for tok in ans.split(" ")]
 
 
 # ------------------------------------------------------------------ implementation side
-EXC = {"error": "crash-struct", "UnicodeDecodeError": "crash-unicode", "AttributeError": "crash-nochar"}
+EXC = {"error": "crash-struct", "UnicodeDecodeError": "crash-unicode", "AttributeError": "exc:AttributeError"}
 
 
 def _mk_device(addr):
@@ -241,7 +271,7 @@ def _load_pairings(ctl, world, calls, fallbacks):
     pairings = []
     for p in world:
         pr = ctl.load_pairing("alias-" + p["name"], {"AccessoryPairingID": _idstr(p), "AccessoryAddress": _idstr(p).upper(),
-                                                      "Connection": "BLE"})
+                                                      "Connection": "BLE", "iOSDeviceLTPK": LTPK.hex()})
         pr.dispatcher_connect(lambda ev, pid=p["id"]: calls.append((pid, ev)))
         orig = pr._process_disconnected_events
 
@@ -259,6 +289,20 @@ async def _impl_op(ev, world, pairings):
     from aiohomekit.controller.ble.structs import ProtocolParams
     idx = next(i for i, p in enumerate(world) if p["id"] == ev["to"])
     pr = pairings[idx]
+    if ev["k"] == "setkey":
+        # key (re)generation inside an authenticated session: the real method, the real HKDF; faked are only
+        # the GATT request and the session (its shared secret is what pair-verify would have produced)
+        from aiohomekit.crypto.hkdf import hkdf_derive
+        secret = SECRETS[ev["key"]]
+        pr._derive = lambda salt, info, length=32: hkdf_derive(secret, salt, info, length=length)
+        pr._async_request_under_lock = AsyncMock(return_value=b"")
+        try:
+            async with pr._operation_lock:
+                await pr._async_set_broadcast_encryption_key()
+        finally:
+            del pr._async_request_under_lock
+            pr._derive = None
+        return
     params = ProtocolParams(state_number=ev["sn"], config_number=1, advertising_id=bytes.fromhex(ev["to"]), broadcast_key=None)
     if ev["k"] == "populate":
         # a connection (re)reads the characteristic values; the accessory reports its GSN
@@ -304,7 +348,7 @@ async def _impl_async(world, events):
                     pr._shutdown = True
                 ctl = BleController(cache)
                 pairings = _load_pairings(ctl, world, calls, fallbacks)
-            elif ev["k"] in ("populate", "update"):
+            elif ev["k"] in ("populate", "update", "setkey"):
                 await _impl_op(ev, world, pairings)
             else:
                 data, _ = realise(ev)
@@ -322,7 +366,9 @@ async def _impl_async(world, events):
                 extra = "" if set(body) == {"value"} else "!keys=" + ",".join(sorted(body))
                 cl.append("%s.%d.%d.%s%s" % (pid, aid, iid, R.canon_py_value(body.get("value")), extra))
         sns = ",".join("-" if pr.description is None else str(pr.description.state_num) for pr in pairings)
-        steps.append(("%s|%s|%s" % (exc, "+".join(cl) or "-", sns), fallbacks[0] - fb0))
+        fbn = fallbacks[0] - fb0
+        fbbit = 1 if (fbn > 0 and ev["k"] not in OPS) else 0      # ops: the poll a regular advertisement triggers is not C18's
+        steps.append(("%s|%s|%s|%d" % (exc, "+".join(cl) or "-", sns, fbbit), fbn))
     for pr in pairings:
         pr._shutdown = True
     return steps
@@ -354,18 +400,19 @@ def impl_all(jobs, workers=12):
 
 # ------------------------------------------------------------------ the property oracle
 def parse_step(s):
-    exc, calls, sns = s.split("|")
+    exc, calls, sns = s.split("|")[:3]
     return exc, ([] if calls == "-" else calls.split("+")), [None if x == "-" else int(x) for x in sns.split(",")]
 
 
-def why_not_fresh(world, ev, data, intact, t, s):
+def why_not_fresh(world, ev, data, intact, t, s, curkey=None):
     p = world[t]
+    key = curkey if curkey is not None else p["key"]
     if not intact:
         return "corrupted-or-foreign-payload"
-    if not p["key"]:
+    if not key:
         return "pairing-has-no-key"
-    if ev["key"] != p["key"]:
-        return "wrong-key"
+    if ev["key"] != key:
+        return "wrong-key" if ev["key"] != p["key"] or key == p["key"] else "key-of-previous-epoch"
     if ev["aad"] != p["id"]:
         return "wrong-advertising-id-as-aad"
     if s is None:
@@ -387,17 +434,25 @@ def oracle_history(world, events, steps, check_monotone=True):
     """-> list of (key, what, step index).  steps: canonical implementation step strings."""
     out = []
     sns = [p["sn"] if (p["cache"] and p["sn"]) else None for p in world]
+    keys = [p["key"] for p in world]          # the key each accessory currently broadcasts under
     for idx, (ev, st) in enumerate(zip(events, steps)):
         if st.startswith("harness-exc"):
             out.append(("harness-exception", st, idx))
             break
         exc, calls, after = parse_step(st)
         if ev["k"] in OPS:
+            if ev["k"] == "setkey":
+                for i, p in enumerate(world):
+                    if p["id"] == ev["to"] and p["db"] == "1":      # generation needs the service-signature characteristic
+                        keys[i] = ev["key"]
             sns = after
             continue
+        if exc != "ok":
+            out.append(("notification-raised:" + exc, "advertisement #%d (%s): %s escaped from the scanner callback"
+                        % (idx, ev.get("label"), exc), idx))
         data, intact = realise(ev)
         t = target(world, data)
-        reason = "not-addressed-to-any-pairing" if t is None else why_not_fresh(world, ev, data, intact, t, sns[t])
+        reason = "not-addressed-to-any-pairing" if t is None else why_not_fresh(world, ev, data, intact, t, sns[t], keys[t])
         for i, p in enumerate(world):
             mine = [c for c in calls if c.startswith(p["id"] + ".")]
             if i != t or reason is not None:
@@ -417,6 +472,11 @@ def oracle_history(world, events, steps, check_monotone=True):
                     out.append(("fresh-rejected" if after[i] == sns[i] else "fresh-wrong-state",
                                 "pairing %s: genuine fresh notification #%d (n=%d, stored %s) left state %s, calls %s"
                                 % (p["name"], idx, n, sns[i], after[i], mine), idx))
+                elif fmt is None and st.split("|")[3:4] == ["0"]:
+                    out.append(("fresh-unknown-characteristic-not-polled",
+                                "pairing %s: notification #%d accepted at %d names characteristic %d which is not in the database "
+                                "(its value cannot be delivered) but the accessory is not polled (no _process_disconnected_events)"
+                                % (p["name"], idx, n, iid), idx))
                 elif mine != want:
                     out.append(("fresh-wrong-delivery", "pairing %s: notification #%d accepted at %d but listeners got %s, expected %s"
                                 % (p["name"], idx, n, mine, want), idx))
@@ -436,7 +496,10 @@ def pt_for(inner, iid, value=b"\x01\x02\x00\x00\x00\x00\x00\x00", ptlen=None):
 
 
 def genuine(to, n, iid=11, value=b"\x01\x02\x00\x00\x00\x00\x00\x00", label="genuine", **mods):
-    return ev_seal(to, to, to, n, pt_for(n, iid, value), label, **mods)
+    key = mods.pop("key", to)
+    e = ev_seal(to, key, to, n, pt_for(n, iid, value), label, **mods)
+    e["addr"] = to if to in PAIRING_NAMES else "U"      # sent by the accessory itself
+    return e
 
 
 def variants(s, n):
@@ -577,6 +640,7 @@ def gen_random(tier, r):
         world = mk_world(st["A"], st["B"])
         sent = {"A": [], "B": []}
         pst = dict(st)             # the generator's idea of the persisted copy
+        curkey = {"A": "A", "B": "B"}
         evs = []
         for _ in range(r.choice([3, 4, 6, 8, 10, 12])):
             who = "A" if r.random() < 0.75 else "B"
@@ -591,6 +655,12 @@ def gen_random(tier, r):
                 if r.random() < 0.12:
                     evs.append(RESTART)
                     st = {k: (pst[k] or st[k]) for k in st}
+                    continue
+                if r.random() < 0.2:
+                    k2 = r.choice(["R1", "R2", "R3"])
+                    evs.append(ev_setkey(who, k2))
+                    if who == "A":                 # B's database has no service-signature characteristic
+                        curkey[who] = k2
                     continue
                 kind = r.choice(["populate", "populate", "update", "plain"])
                 n2 = max(1, s + r.choice([0, 1, 2, 3, 6, 50, 99, 120, -1, -3])) & 0xFFFF or 1
@@ -638,13 +708,18 @@ def gen_random(tier, r):
                 e = dict(genuine(who, s + 1, iid, val), flip=r.randrange(128), label="bitflip")
             else:
                 e = ev_raw(who, bytes(r.getrandbits(8) for _ in range(r.choice([0, 1, 2, 3, 4, 16, 16, 20]))), "raw")
+            if e["k"] == "seal" and e["key"] == who and curkey[who] != who and e.get("_fixed") is None:
+                if r.random() < 0.85:
+                    e = dict(e, key=curkey[who])
+                else:
+                    e = dict(e, label="old-epoch-key")
             evs.append(e)
             # the generator's own bookkeeping of what a correct receiver stores (used only to aim the offsets)
             data, intact = realise(e)
             t = target(world, data)
             if t is not None and world[t]["name"] in st and e["k"] == "seal":
                 nm = world[t]["name"]
-                if why_not_fresh(world, e, data, intact, t, st[nm]) is None:
+                if why_not_fresh(world, e, data, intact, t, st[nm], curkey[nm]) is None:
                     st[nm] = e["n"]
                     sent[nm].append(e)
         hs.append((world, evs, "random"))
@@ -689,6 +764,58 @@ def gen_ops(tier):
         hs.append((mk_world(s, 300), [RESTART, g(s + 1), ev_seal("D", "D", "D", 5, pt_for(5, 11), "no-description"),
                                       ev_seal("E", "A", "E", 5, pt_for(5, 11), "wrong-frame-id")], "ops:restart-first"))
     return hs
+
+
+def ev_setkey(to, key):
+    return dict(k="setkey", to=IDS[to], key=key, label="setkey")
+
+
+def gen_keys(tier):
+    """one long-lived pairing whose broadcast key is (re)generated between notifications
+    (_async_set_broadcast_encryption_key, real HKDF), restarts that must restore the saved key, the 16-bit
+    roll-over of the state number, and authentic notifications whose value cannot be delivered."""
+    hs = []
+    starts = [20, 65400] if tier == "quick" else [1, 20, 255, 4095, 32767, 65400, 65430]
+
+    def gk(n, key, lab="genuine", who="A", iid=11):
+        return genuine(who, n, iid, label=lab, key=key)
+    for s in starts:
+        w = mk_world(s, 300)
+        hs.append((w, [gk(s + 1, "A"), ev_setkey("A", "R1"), gk(s + 2, "A", "old-epoch-key"), gk(s + 2, "R1"),
+                       gk(s + 2, "R1", "replay-current"), RESTART, gk(s + 3, "A", "old-epoch-key"), gk(s + 3, "R1", "after-restart"),
+                       ev_setkey("A", "R2"), gk(s + 4, "R1", "old-epoch-key"), gk(s + 4, "R2")], "keys:rotate"))
+        hs.append((w, [ev_setkey("A", "R1"), gk(s + 1, "R2", "wrong-key"), gk(s + 1, "R1"), ev_setkey("A", "R1"), gk(s + 2, "R1")],
+                   "keys:same-key-again"))
+        # B's database has no service-signature characteristic: the method returns early, the key stays
+        hs.append((w, [ev_setkey("B", "R1"), gk(301, "R1", "wrong-key", "B"), gk(301, "B", "genuine", "B")], "keys:no-signature-char"))
+        # rotation of A does not touch B, and B's key does not open A's
+        hs.append((w, [ev_setkey("A", "R1"), gk(301, "B", "genuine", "B"), gk(s + 1, "B", "wrong-key"), gk(s + 1, "R1")], "keys:other-pairing"))
+        # key regenerated for a pairing that had none (C: cache without key) - it starts accepting
+        hs.append((w, [ev_seal("C", "R3", "C", 6, pt_for(6, 11), "no-key-yet"), ev_setkey("C", "R3"),
+                       ev_seal("C", "R3", "C", 6, pt_for(6, 11), "genuine"), RESTART,
+                       ev_seal("C", "R3", "C", 7, pt_for(7, 11), "after-restart")], "keys:first-key"))
+        # undelivered but advanced (repaired behaviour): unknown iid, short value, bad UTF-8, database without accessory 1
+        hs.append((w, [gk(s + 1, "A", "unknown-iid", iid=999), gk(s + 1, "A", "replay-current", iid=999),
+                       ev_seal("A", "A", "A", s + 2, pt_for(s + 2, 12, ptlen=5), "short-value"),
+                       ev_seal("A", "A", "A", s + 2, pt_for(s + 2, 12, ptlen=5), "replay-current"),
+                       ev_seal("A", "A", "A", s + 3, R.plaintext(s + 3, 16, b"\xff\xfe" + bytes(6)), "bad-utf8"),
+                       gk(s + 3, "A", "replay-current"), gk(s + 4, "A")], "keys:undelivered"))
+        hs.append((w, [ev_seal("F", "F", "F", 41, pt_for(41, 2), "no-accessory-1"), ev_seal("F", "F", "F", 41, pt_for(41, 2), "replay-current"),
+                       ev_seal("F", "F", "F", 42, pt_for(42, 11), "no-accessory-1"), RESTART,
+                       ev_seal("F", "F", "F", 41, pt_for(41, 2), "after-restart")], "keys:no-accessory-1"))
+    # the 16-bit roll-over: 65535 is a dead end for broadcasts; the code's handling = number 1 AND a new key
+    for s in ([65534, 65535] if tier == "quick" else [65436, 65500, 65534, 65535]):
+        w = mk_world(s, 300)
+        hs.append((w, [gk(65535, "A"), gk(65536, "A", "beyond-16-bit"), gk(65537, "A", "beyond-16-bit"), ev_setkey("A", "R1"),
+                       ev_op("update", "A", 1), gk(2, "A", "old-epoch-key"), gk(50, "A", "old-epoch-key"), gk(2, "R1"),
+                       gk(2, "R1", "replay-current"), gk(3, "R1")], "keys:rollover"))
+    return hs
+
+
+def gen_rollover_obs():
+    """observation: a roll-over of the number WITHOUT a new key re-admits the previous epoch"""
+    g = genuine("A", 2)
+    return [(mk_world(1, 300), [g, g, ev_op("update", "A", 65535), ev_op("update", "A", 1), g], "keys:rollover-without-rotation")]
 
 
 def gen_plain():
@@ -755,7 +882,8 @@ def canon_model_val(a):
 
 # ------------------------------------------------------------------ extraction cross-check (vm_compute)
 _XC_OUT = {"notapple": 0, "othertype": 1, "nopairing": 2, "nokey": 3, "nodesc": 4, "nodecrypt": 5, "stale": 6,
-           "mismatch": 7, "accepted": 8, "crash-struct": 10, "crash-unicode": 11, "crash-nochar": 12, "op": 99}
+           "mismatch": 7, "accepted": 8, "crash-struct": 10, "crash-unicode": 11, "crash-nochar": 12,
+           "undelivered-struct": 10, "undelivered-unicode": 11, "undelivered-nochar": 12, "op": 99}
 _XC_FMT = {"bool": "FBool", "u8": "FU8", "u16": "FU16", "u32": "FU32", "u64": "FU64", "int": "FInt",
            "float": "FFloat", "string": "FString", "other": "FOther"}
 _XC_PRELUDE = """From Coq Require Import List NArith ZArith.
@@ -775,7 +903,7 @@ Definition show_ck (k : crashkind) : Z := match k with CkStruct => 10 | CkUnicod
 Definition show_o (o : outcome) : Z :=
   match o with
   | ONotApple => 0 | OOtherType => 1 | ONoPairing => 2 | ONoKey => 3 | ONoDesc => 4 | ONoDecrypt => 5
-  | OStale => 6 | OMismatch => 7 | OAccepted => 8 | OCrash k => show_ck k
+  | OStale => 6 | OMismatch => 7 | OAccepted => 8 | OUndelivered k => show_ck k
   end.
 Definition show_call (x : call) : list Z :=
   let '(i, aid, iid, v) := x in zb i ++ [Z.of_N aid; Z.of_N iid] ++ show_v v.
@@ -783,13 +911,16 @@ Definition show_sns (c : ctrl) : list Z :=
   Z.of_nat (length c) :: flat_map (fun p => match p_sn p with None => [0; 0] | Some n => [1; Z.of_N n] end) c.
 Definition show_psns (c : ctrl) : list Z :=
   Z.of_nat (length c) :: flat_map (fun p => match p_psn p with None => [0; 0] | Some n => [1; Z.of_N n] end) c.
-Definition show_step (o : Z) (cl : list call) (c : ctrl) : list Z :=
-  o :: Z.of_nat (length cl) :: flat_map show_call cl ++ show_sns c ++ show_psns c.
+Definition show_keys (c : ctrl) : list Z :=
+  Z.of_nat (length c) :: flat_map (fun p => match p_key p with None => [0; 0] | Some n => [1; Z.of_N n] end) c.
+Definition show_step (o : Z) (fb : bool) (cl : list call) (c : ctrl) : list Z :=
+  o :: Z.of_nat (length cl) :: flat_map show_call cl ++ show_sns c ++ show_psns c ++ [if fb then 1 else 0] ++ show_keys c.
 Fixpoint show_hist (c : ctrl) (h : list op) : list Z :=
   match h with
   | [] => []
   | x :: r => let '(c', o, cl) := apply c x in
-              show_step (match x with OAdv _ => show_o o | _ => 99 end) cl c' ++ show_hist c' r
+              show_step (match x with OAdv _ => show_o o | _ => 99 end)
+                        (match x with OAdv _ => falls_back o | _ => false end) cl c' ++ show_hist c' r
   end.
 Definition show_val (r : crashkind + value) : list Z :=
   match r with inl k => [0; show_ck k] | inr v => 1 :: show_v v end.
@@ -815,7 +946,8 @@ def _xc_term(line):
         if f[0] == "P":
             chars = "[]" if f[5] == "-" else "[" + "; ".join(
                 "(%d%%N, %s)" % (int(c.split(".")[0]), _XC_FMT[c.split(".")[1]]) for c in f[5].split(",")) + "]"
-            ps.append("mkP %s %s %s %s %s" % (_xc_bytes(f[1]), _xc_optn(f[2]), _xc_optn(f[3]), _xc_optn(f[4]), chars))
+            ps.append("mkP %s %s %s %s %s %s" % (_xc_bytes(f[1]), _xc_optn(f[2]), _xc_optn(f[3]), _xc_optn(f[4]), chars,
+                                                 "true" if f[6] == "1" else "false"))
         elif f[0] == "A":
             b = f[2].split(".")
             if b[0] == "S":
@@ -829,6 +961,8 @@ def _xc_term(line):
             evs.append("OAdv (%s, %s)" % (_xc_bytes(f[1]), body))
         elif f[0] == "X":
             evs.append("ORestart")
+        elif f[0] == "K":
+            evs.append("OSetKey %s %d%%N" % (_xc_bytes(f[1]), int(f[2])))
         else:
             evs.append("%s %s %d%%N" % ({"R": "OPlain", "O": "OPopulate", "U": "OUpdate"}[f[0]], _xc_bytes(f[1]), int(f[2])))
     return "show_hist [%s] [%s]" % ("; ".join(ps), "; ".join(evs))
@@ -852,14 +986,17 @@ def _xc_expect(line, ans):
         return [0, _XC_OUT[ans]] if ans.startswith("crash-") else [1] + _xc_val(ans)
     out = []
     for tok in ([] if ans == "." else ans.split(" ")):
-        o, calls, sns, psns = tok.split("/")
+        o, calls, sns, psns, fb, keys = tok.split("/")
         cl = [] if calls == "-" else calls.split("+")
         out += [_XC_OUT[o], len(cl)]
         for c in cl:
             pid, aid, iid, v = c.split(".", 3)
             idb = [] if pid == "-" else list(bytes.fromhex(pid))
             out += [len(idb)] + idb + [int(aid), int(iid)] + _xc_val(v)
-        for grp in (sns, psns):
+        for grp in (sns, psns, None, keys):
+            if grp is None:
+                out.append(int(fb))
+                continue
             sl = grp.split(",") if grp else []
             out.append(len(sl))
             for x in sl:
@@ -876,7 +1013,7 @@ def xc_sample(hist_pairs, val_pairs, nhist=18, nval=10):
     for i, l, a in hp:
         feats = {"o:" + t.split("/")[0] for t in a.split(" ") if "/" in t}
         feats |= {"b:" + t.split(":")[2][0] for t in l.split(" ") if t.startswith("A:")}
-        feats |= {"e:" + t[0] for t in l.split(" ") if t[0] in "ROUX"}
+        feats |= {"e:" + t[0] for t in l.split(" ") if t[0] in "ROUXK"}
         if feats - seen and len(picked) < nhist - 6:
             seen |= feats
             picked.append(i)
@@ -941,8 +1078,8 @@ def run(ctx):
         hs = [(rp["world"], rp["events"], "replay")]
     else:
         hs = gen_core(tier) + gen_values(tier) + gen_flips(tier, rng(seed, "c18flip")) + gen_short(tier, rng(seed, "c18short")) \
-            + gen_random(tier, rng(seed, "c18rand")) + gen_ops(tier)
-    plain = [] if ctx.get("replay") else gen_plain()
+            + gen_random(tier, rng(seed, "c18rand")) + gen_ops(tier) + gen_keys(tier)
+    plain = [] if ctx.get("replay") else gen_plain() + gen_rollover_obs()
     allh = hs + plain
     lines, model, impl = run_histories(drv, allh)
 
@@ -956,10 +1093,10 @@ def run(ctx):
             continue
         msteps, mout = canon_model(mans, len(world))
         ist = [s for s, _ in isteps]
-        for o, (_, fb) in zip(mout, isteps):
+        for o, (ms, (si, fb)) in zip(mout, zip(msteps, isteps)):
             if o != "op":
                 outcomes_hit.add(o)
-            if (o in ("nokey", "nodecrypt")) != (fb > 0) and o != "op":
+            if ms.split("|")[3] != si.split("|")[3]:
                 fallback_disagree += 1
                 if len(fb_samples) < 3:
                     fb_samples.append(dict(stream=stream, model_outcome=o, impl_fallback_calls=fb, line=line[:600]))
@@ -991,7 +1128,7 @@ def run(ctx):
                                        % (k, stream, ist[k] if k < len(ist) else None, msteps[k] if k < len(msteps) else None),
                                        False, stream=stream, world=world, events=evs, impl_steps=ist, model_steps=msteps,
                                        broken="correspondence Model/Bcast.v <-> aiohomekit/controller/ble/pairing.py::_async_notification"))
-        nontriv = any(o in ("nodecrypt", "stale", "mismatch", "accepted") or o.startswith("crash-") for o in mout)
+        nontriv = any(o in ("nodecrypt", "stale", "mismatch", "accepted") or o.startswith("undelivered-") for o in mout)
         sample = None
         if hi % 397 == 0:
             sample = dict(stream=stream, stored=[p["sn"] for p in world], events=[e.get("label") for e in evs], impl=ist[:3])
@@ -1000,7 +1137,7 @@ def run(ctx):
         for e, o in zip(evs, mout):
             cov.hist["event_kind"][str(e.get("label"))] += 1
             cov.hist["model_outcome"][o] += 1
-            if e["k"] == "seal" and o.startswith(("accepted", "crash")):
+            if e["k"] == "seal" and o.startswith(("accepted", "undelivered")):
                 pt = bytes.fromhex(e["pt"])
                 t = target(world, realise(e)[0])
                 if t is not None and world[t]["db"]:
@@ -1014,6 +1151,12 @@ def run(ctx):
             obs.append(dict(history=[e.get("label") for e in evs], stored_after=[s[2][0] for s in st],
                             listener_calls=[len(s[1]) for s in st],
                             replay_accepted_after_plain_adv_rollback=bool(st[3][1])))
+    obs_roll = []
+    for (world, evs, stream), isteps in zip(allh, impl):
+        if stream == "keys:rollover-without-rotation":
+            st = [parse_step(s) for s, _ in isteps]
+            obs_roll.append(dict(history=[e.get("label") for e in evs], stored_after=[s[2][0] for s in st],
+                                 listener_calls=[len(s[1]) for s in st], previous_epoch_accepted_again=bool(st[4][1])))
     obs_restart = []
     for (world, evs, stream), isteps in zip(allh, impl):
         if stream == "ops:restart-replay":
@@ -1054,13 +1197,13 @@ def run(ctx):
                                    False, first=xfirst, broken="extraction / ocaml driver glue (ocaml/drv.ml, ocaml/drv_c18.ml)"))
 
     all_out = {"notapple", "othertype", "nopairing", "nokey", "nodesc", "nodecrypt", "stale", "mismatch", "accepted",
-               "crash-struct", "crash-unicode", "crash-nochar"}
+               "undelivered-struct", "undelivered-unicode", "undelivered-nochar"}
     cov.extra["histories"] = len(allh)
     cov.extra["advertisements"] = sum(len(e) for _, e, _ in allh)
     cov.extra["model_outcomes_hit"] = sorted(outcomes_hit)
     cov.extra["model_outcomes_missed"] = sorted(all_out - outcomes_hit)
     cov.extra["disagreements_checked"] = mismatches
-    cov.extra["fallback_outcome_disagreements_informational"] = fallback_disagree
+    cov.extra["fallback_disagreements"] = fallback_disagree     # compared (part of the step string) since the 242be4e repair
     cov.extra["fallback_outcome_disagreement_samples"] = fb_samples
     cov.extra["exhaustive"] = True
     cov.extra["exhaustive_part"] = ("every single-bit flip of the 16 payload+tag bytes and of the 8 header bytes of %d notifications; "
@@ -1071,6 +1214,7 @@ def run(ctx):
     cov.extra["observations"] = dict(
         plain_advertisement_rollback=obs,
         restart_replay=obs_restart,
+        rollover_without_new_key=obs_roll,
         note="outside C18's quantifier: description.state_num is also overwritten by plain type-0x06 advertisements "
              "(unauthenticated); after such a roll-back a previously accepted broadcast is accepted again "
              "(Coq: c18_plain_adv_rollback_observation).  An accepted broadcast does not advance the persisted state_num, so "
